@@ -1,52 +1,717 @@
-(* Ports/PortProofsC15.v — proofs for property C15 (model: PortModel.v, specification: PortSpec.v). *)
-From Coq Require Import List ZArith String Bool Lia.
+(* Ports/PortProofsC15.v — proofs for property C15 (model: PortModel.v, specification: PortSpec.v).
+
+   What is proved (all Qed, closed under the global context):
+   (1) absorb_ports_select   the rule-stripping, string-prefix algorithm of absorb computes the
+                             component-wise selection [select (ruleset_of ex inc) []]
+   (2) select_leaf, select_ns, select_ns_iff, select_ns_converse
+                             pointwise meaning of the selection
+   (3) assign_all_other, assign_all_selected
+   (4) absorb_spec, absorb_exclusive
+   (5) absorb_attrs_spec, absorb_attrs_unknown
+
+   Changes w.r.t. the statements first proposed:
+   * absorb_ports_select and absorb_spec have ONE extra hypothesis,
+       include_antichain (ruleset_of ex inc) = true
+     (no include rule is a proper ancestor of another include rule; nothing is asked of exclude
+     rules).  It is necessary: see [antichain_needed] below — with include = ["n"; "n.x"] the code
+     strips the rule "n" away when it descends into n, keeps ["x"], and exposes only n.x, whereas
+     the rule "n" selects all of n.  This is the property's own quantifier ("no rule being an
+     ancestor of another rule in the same set").
+   * no hypothesis on the rules' components is needed (rules such as "", "n." or "n..x" are fine);
+     port names must be good names (good_names_ports), which is necessary (a port called "a.b" is
+     excluded by the rule "a.b" in the code but not at component level).
+   * wf_ports is used (only) to know that nested namespaces have unique names: the code builds the
+     copy of a namespace by successive assignments into an empty dict; names_unique of the top level
+     is not used by (1). *)
+From Coq Require Import List ZArith String Bool Ascii Lia.
 From Plumpy Require Import Val PortModel PortSpec.
 Import ListNotations.
+Local Open Scope string_scope.
+
+Scheme port_mut := Induction for port Sort Prop
+  with ports_mut := Induction for ports Sort Prop.
+Combined Scheme port_ports_ind from port_mut, ports_mut.
 
 Section C15.
-  (* TO BE PROVED.  Hypotheses may be weakened or adjusted to what is really needed (e.g. a condition that
-     the components of every rule are good names); report every hypothesis you had to add.
 
-  (1) string level = component level: the rule-stripping, string-prefix algorithm of absorb computes the
-      component-wise selection.
+  (* ---------- strings ---------- *)
+  Lemma app_assoc_s : forall a b c : string, (a ++ b) ++ c = a ++ (b ++ c).
+  Proof. induction a as [|ch a IH]; intros b c; simpl; [reflexivity | now rewrite IH]. Qed.
+
+  Lemma prefixb_app : forall a b c, prefixb (a ++ b) (a ++ c) = prefixb b c.
+  Proof.
+    induction a as [|ch a IH]; intros b c; simpl; [reflexivity|].
+    rewrite Ascii.eqb_refl; simpl; apply IH.
+  Qed.
+
+  Lemma prefixb_true : forall p s, prefixb p s = true -> exists r, s = p ++ r.
+  Proof.
+    induction p as [|ch p IH]; intros s H; simpl in *.
+    - now exists s.
+    - destruct s as [|b s]; [discriminate|].
+      apply andb_true_iff in H as [H1 H2]. apply Ascii.eqb_eq in H1; subst b.
+      destruct (IH _ H2) as [r Hr]. exists r. now rewrite Hr.
+  Qed.
+
+  Lemma drop_app : forall a b c, drop (String.length (a ++ b)) (a ++ c) = drop (String.length b) c.
+  Proof. induction a as [|ch a IH]; intros b c; simpl; [reflexivity | apply IH]. Qed.
+
+  Lemma prefixb_self_dot : forall n, prefixb (n ++ ".") n = false.
+  Proof.
+    induction n as [|ch n IH]; simpl; [reflexivity|].
+    rewrite Ascii.eqb_refl; simpl; exact IH.
+  Qed.
+
+  Lemma split_on_nonnil : forall c s, split_on c s <> [].
+  Proof.
+    intros c s; destruct s as [|a s]; simpl; [discriminate|].
+    destruct (Ascii.eqb a c); [discriminate|].
+    destruct (split_on c s); discriminate.
+  Qed.
+
+  Lemma split_path_nonnil : forall s, split_path s <> [].
+  Proof. intros s; apply split_on_nonnil. Qed.
+
+  Lemma split_path_dot : forall n r, sep_free n = true ->
+    split_path (n ++ "." ++ r) = n :: split_path r.
+  Proof.
+    unfold split_path.
+    induction n as [|ch n IH]; intros r Hn; simpl in *.
+    - reflexivity.
+    - apply andb_true_iff in Hn as [H1 H2].
+      apply negb_true_iff in H1. rewrite H1.
+      simpl in IH. rewrite (IH r H2). reflexivity.
+  Qed.
+
+  Lemma split_path_single : forall n, sep_free n = true -> split_path n = [n].
+  Proof.
+    unfold split_path.
+    induction n as [|ch n IH]; intros Hn; simpl in *.
+    - reflexivity.
+    - apply andb_true_iff in Hn as [H1 H2].
+      apply negb_true_iff in H1. rewrite H1. rewrite (IH H2). reflexivity.
+  Qed.
+
+  (* the head of a split, read back on the string *)
+  Lemma split_hd : forall s x xs, split_path s = x :: xs ->
+    (xs = [] /\ s = x) \/ (exists s', s = x ++ "." ++ s' /\ xs = split_path s').
+  Proof.
+    unfold split_path.
+    induction s as [|ch s IH]; intros x xs H; simpl in H.
+    - inversion H; subst. now left.
+    - destruct (Ascii.eqb ch ".") eqn:E.
+      + apply Ascii.eqb_eq in E; subst ch. inversion H; subst. right. exists s. split; reflexivity.
+      + destruct (split_on "." s) as [|y ys] eqn:Es.
+        * exfalso. exact (split_on_nonnil _ _ Es).
+        * inversion H; subst.
+          destruct (IH y xs eq_refl) as [[Hx Hs] | [s' [Hs Hx]]].
+          -- left. split; [assumption | now rewrite Hs].
+          -- right. exists s'. split; [now rewrite Hs | assumption].
+  Qed.
+
+  (* trichotomy of a rule string w.r.t. a separator-free name *)
+  Lemma rule_cases : forall n s, sep_free n = true ->
+    (s = n /\ split_path s = [n])
+    \/ (exists s', s = n ++ "." ++ s' /\ split_path s = n :: split_path s')
+    \/ (s <> n /\ prefixb (n ++ ".") s = false /\ exists x xs, split_path s = x :: xs /\ x <> n).
+  Proof.
+    intros n s Hn.
+    destruct (split_path s) as [|x xs] eqn:Es; [exfalso; exact (split_path_nonnil _ Es)|].
+    destruct (String.eqb x n) eqn:Ex.
+    - apply String.eqb_eq in Ex; subst x.
+      destruct (split_hd _ _ _ Es) as [[Hx Hs] | [s' [Hs Hx]]].
+      + left. subst. split; reflexivity.
+      + right; left. exists s'. subst xs. split; [assumption | reflexivity].
+    - apply String.eqb_neq in Ex. right; right. split; [|split].
+      + intros ->. rewrite (split_path_single _ Hn) in Es. inversion Es; subst. now apply Ex.
+      + destruct (prefixb (n ++ ".") s) eqn:Ep; [|reflexivity].
+        apply prefixb_true in Ep as [r Hr]. rewrite app_assoc_s in Hr. subst s.
+        rewrite (split_path_dot _ _ Hn) in Es. inversion Es; subst. now elim Ex.
+      + exists x, xs. split; [reflexivity | assumption].
+  Qed.
+
+  (* ---------- component paths ---------- *)
+  Lemma is_prefix_refl : forall p, is_prefix p p = true.
+  Proof. induction p as [|x p IH]; simpl; [reflexivity | now rewrite String.eqb_refl]. Qed.
+
+  Lemma is_prefix_nil_r : forall r, is_prefix r [] = true -> r = [].
+  Proof. intros [|x r] H; [reflexivity | discriminate]. Qed.
+
+  Lemma is_prefix_antisym : forall a b, is_prefix a b = true -> is_prefix b a = true -> a = b.
+  Proof.
+    induction a as [|x a IH]; intros [|y b] H1 H2; simpl in *; try discriminate; [reflexivity|].
+    apply andb_true_iff in H1 as [H1 H1']. apply andb_true_iff in H2 as [_ H2'].
+    apply String.eqb_eq in H1; subst y. f_equal. now apply IH.
+  Qed.
+
+  Lemma is_prefix_app_l : forall r p q, is_prefix r p = true -> is_prefix r (p ++ q)%list = true.
+  Proof.
+    induction r as [|x r IH]; intros [|y p] q H; simpl in *; try discriminate; try reflexivity.
+    apply andb_true_iff in H as [H1 H2]. rewrite H1; simpl. now apply IH.
+  Qed.
+
+  Lemma is_prefix_app_cases : forall r p q, is_prefix r (p ++ q)%list = true ->
+    is_prefix r p = true \/ is_prefix p r = true.
+  Proof.
+    induction r as [|x r IH]; intros [|y p] q H; simpl in *; auto.
+    apply andb_true_iff in H as [H1 H2]. rewrite H1. rewrite String.eqb_sym in H1. rewrite H1. simpl.
+    now apply IH with q.
+  Qed.
+
+  (* the string-level stripping of rules *)
+  Definition sstrip (n : string) (rs : list string) : list string :=
+    map (drop (String.length (n ++ "."))) (filter (prefixb (n ++ ".")) rs).
+
+  Lemma strip_namespace_Some : forall n rs, strip_namespace n (Some rs) = Some (sstrip n rs).
+  Proof. reflexivity. Qed.
+
+  Lemma sstrip_cons : forall n s rs, sstrip n (s :: rs) =
+    if prefixb (n ++ ".") s then drop (String.length (n ++ ".")) s :: sstrip n rs else sstrip n rs.
+  Proof. intros n s rs; unfold sstrip; simpl. now destruct (prefixb (n ++ ".") s). Qed.
+
+  Lemma strip_dot : forall n s', 
+    prefixb (n ++ ".") (n ++ "." ++ s') = true /\ drop (String.length (n ++ ".")) (n ++ "." ++ s') = s'.
+  Proof.
+    intros n s'. split.
+    - rewrite prefixb_app. reflexivity.
+    - rewrite drop_app. reflexivity.
+  Qed.
+
+  Lemma in_sstrip : forall n rs t, In t (sstrip n rs) -> In (n ++ "." ++ t) rs.
+  Proof.
+    intros n rs t H. unfold sstrip in H. apply in_map_iff in H as [s [Hs Hin]].
+    apply filter_In in Hin as [Hin Hp].
+    apply prefixb_true in Hp as [r Hr]. rewrite app_assoc_s in Hr. subst s.
+    destruct (strip_dot n r) as [_ Hd]. rewrite Hd in Hs. subst t. assumption.
+  Qed.
+
+  Lemma sstrip_nil_or : forall n rs, sstrip n rs = [] \/ exists s', In (n ++ "." ++ s') rs.
+  Proof.
+    intros n rs. destruct (sstrip n rs) as [|t ts] eqn:E; [now left|].
+    right. exists t. apply in_sstrip. rewrite E. now left.
+  Qed.
+
+  (* the same trichotomy, with everything absorb computes on the rule *)
+  Lemma rule_cases' : forall n s, sep_free n = true ->
+    (s = n /\ split_path s = [n] /\ prefixb (n ++ ".") s = false)
+    \/ (exists s', split_path s = n :: split_path s' /\ prefixb (n ++ ".") s = true
+                   /\ drop (String.length (n ++ ".")) s = s' /\ s <> n)
+    \/ (s <> n /\ prefixb (n ++ ".") s = false /\ exists x xs, split_path s = x :: xs /\ x <> n).
+  Proof.
+    intros n s Hn.
+    destruct (rule_cases n s Hn) as [[Hs Hsp] | [[s' [Hs Hsp]] | H3]].
+    - left. subst s. repeat split; [assumption | apply prefixb_self_dot].
+    - right; left. exists s'. destruct (strip_dot n s') as [Hp Hd]. rewrite <- Hs in Hp, Hd.
+      repeat split; try assumption.
+      intros Heq. rewrite Heq in Hsp. rewrite (split_path_single _ Hn) in Hsp.
+      inversion Hsp as [Hnil]. symmetry in Hnil. now apply split_path_nonnil in Hnil.
+    - right; right. exact H3.
+  Qed.
+
+  Lemma existsb_map : forall {A B} (f : B -> bool) (g : A -> B) l,
+    existsb f (map g l) = existsb (fun x => f (g x)) l.
+  Proof. intros A B f g l; induction l as [|x l IH]; simpl; [reflexivity | now rewrite IH]. Qed.
+
+  Lemma existsb_ext' : forall {A} (f g : A -> bool) l, (forall x, f x = g x) -> existsb f l = existsb g l.
+  Proof. intros A f g l H; induction l as [|x l IH]; simpl; [reflexivity | now rewrite H, IH]. Qed.
+
+  Lemma existsb_sstrip : forall n (F G : string -> bool) rs,
+    (forall s, F s = String.eqb n s || (prefixb (n ++ ".") s && G (drop (String.length (n ++ ".")) s))) ->
+    existsb F rs = existsb (String.eqb n) rs || existsb G (sstrip n rs).
+  Proof.
+    intros n F G rs HF. induction rs as [|s rs IH]; [reflexivity|].
+    rewrite sstrip_cons. cbn [existsb]. rewrite IH, HF.
+    destruct (String.eqb n s); destruct (prefixb (n ++ ".") s); cbn [existsb orb andb];
+      try reflexivity.
+    - destruct (G (drop (String.length (n ++ ".")) s)); cbn [orb]; [|reflexivity].
+      now rewrite orb_true_r.
+  Qed.
+
+  Lemma neq_eqb : forall a b : string, a <> b -> String.eqb a b = false.
+  Proof. intros a b H; now apply String.eqb_neq. Qed.
+  Lemma neq_eqb' : forall a b : string, a <> b -> String.eqb b a = false.
+  Proof. intros a b H; apply String.eqb_neq; congruence. Qed.
+
+  (* one rule against a path below n *)
+  Lemma rule_leaf : forall n s q, sep_free n = true ->
+    is_prefix (split_path s) (n :: q)
+    = String.eqb n s || (prefixb (n ++ ".") s && is_prefix (split_path (drop (String.length (n ++ ".")) s)) q).
+  Proof.
+    intros n s q Hn.
+    destruct (rule_cases' n s Hn) as [[Hs [Hsp Hp]] | [[s' [Hsp [Hp [Hd Hne]]]] | [Hne [Hp [x [xs [Hsp Hx]]]]]]].
+    - rewrite Hsp, Hp. subst s. cbn [is_prefix]. now rewrite String.eqb_refl.
+    - rewrite Hsp, Hp, Hd. rewrite (neq_eqb' _ _ Hne). cbn [is_prefix]. now rewrite String.eqb_refl.
+    - rewrite Hsp, Hp. rewrite (neq_eqb' _ _ Hne). cbn [is_prefix]. now rewrite (neq_eqb _ _ Hx).
+  Qed.
+
+  Lemma rule_ns : forall n s q, sep_free n = true ->
+    is_prefix (split_path s) (n :: q) || is_prefix (n :: q) (split_path s)
+    = String.eqb n s || (prefixb (n ++ ".") s &&
+         (is_prefix (split_path (drop (String.length (n ++ ".")) s)) q
+          || is_prefix q (split_path (drop (String.length (n ++ ".")) s)))).
+  Proof.
+    intros n s q Hn.
+    destruct (rule_cases' n s Hn) as [[Hs [Hsp Hp]] | [[s' [Hsp [Hp [Hd Hne]]]] | [Hne [Hp [x [xs [Hsp Hx]]]]]]].
+    - rewrite Hsp, Hp. subst s. cbn [is_prefix]. now rewrite String.eqb_refl.
+    - rewrite Hsp, Hp, Hd. rewrite (neq_eqb' _ _ Hne). cbn [is_prefix]. now rewrite String.eqb_refl.
+    - rewrite Hsp, Hp. rewrite (neq_eqb' _ _ Hne). cbn [is_prefix].
+      now rewrite (neq_eqb _ _ Hx), (neq_eqb' _ _ Hx).
+  Qed.
+
+  Lemma existsb_strip_leaf : forall n rs q, sep_free n = true ->
+    existsb (fun r => is_prefix r (n :: q)) (map split_path rs)
+    = existsb (String.eqb n) rs || existsb (fun r => is_prefix r q) (map split_path (sstrip n rs)).
+  Proof.
+    intros n rs q Hn. rewrite !existsb_map.
+    apply existsb_sstrip with (G := fun s => is_prefix (split_path s) q).
+    intros s. now apply rule_leaf.
+  Qed.
+
+  Lemma existsb_strip_ns : forall n rs q, sep_free n = true ->
+    existsb (fun r => is_prefix r (n :: q) || is_prefix (n :: q) r) (map split_path rs)
+    = existsb (String.eqb n) rs
+      || existsb (fun r => is_prefix r q || is_prefix q r) (map split_path (sstrip n rs)).
+  Proof.
+    intros n rs q Hn. rewrite !existsb_map.
+    apply existsb_sstrip with (G := fun s => is_prefix (split_path s) q || is_prefix q (split_path s)).
+    intros s. now apply rule_ns.
+  Qed.
+
+  (* the rule tests of absorb at the current level *)
+  Lemma is_prefix_single : forall n s, sep_free n = true ->
+    is_prefix (split_path s) [n] = String.eqb n s.
+  Proof.
+    intros n s Hn. rewrite rule_leaf by assumption.
+    destruct (String.eqb n s); [reflexivity|]. cbn [orb].
+    destruct (prefixb (n ++ ".") s); [|reflexivity]. cbn [andb].
+    destruct (split_path (drop (String.length (n ++ ".")) s)) eqn:E; [now apply split_path_nonnil in E | reflexivity].
+  Qed.
+
+  Lemma ns_test_single : forall n s, sep_free n = true ->
+    is_prefix (split_path s) [n] || is_prefix [n] (split_path s)
+    = String.eqb s n || prefixb (n ++ ".") s.
+  Proof.
+    intros n s Hn. rewrite rule_ns by assumption. rewrite (String.eqb_sym s n).
+    destruct (String.eqb n s); [reflexivity|]. cbn [orb].
+    destruct (prefixb (n ++ ".") s); [|reflexivity]. cbn [andb is_prefix].
+    now rewrite orb_true_r.
+  Qed.
+
+  (* ---------- antichains of include rules ---------- *)
+  Definition antichainb (rs : list path) : bool :=
+    forallb (fun r1 => forallb (fun r2 => negb (is_prefix r1 r2) || is_prefix r2 r1) rs) rs.
+
+  (* no include rule is a proper ancestor of another include rule (exclude rules are unconstrained) *)
+  Definition include_antichain (R : ruleset) : bool :=
+    match R with RInclude rs => antichainb rs | _ => true end.
+
+  Definition antichain (rs : list path) : Prop :=
+    forall r1 r2, In r1 rs -> In r2 rs -> is_prefix r1 r2 = true -> r1 = r2.
+
+  Definition antichainR (R : ruleset) : Prop :=
+    match R with RInclude rs => antichain rs | _ => True end.
+
+  Lemma antichainb_spec : forall rs, antichainb rs = true -> antichain rs.
+  Proof.
+    intros rs H r1 r2 H1 H2 Hp. unfold antichainb in H.
+    rewrite forallb_forall in H. specialize (H r1 H1). rewrite forallb_forall in H.
+    specialize (H r2 H2). rewrite Hp in H. cbn in H. now apply is_prefix_antisym.
+  Qed.
+
+  Lemma include_antichain_spec : forall R, include_antichain R = true -> antichainR R.
+  Proof. intros [|rs|rs] H; cbn in *; auto. now apply antichainb_spec. Qed.
+
+  Lemma antichain_strip : forall n rs, sep_free n = true ->
+    antichain (map split_path rs) -> antichain (map split_path (sstrip n rs)).
+  Proof.
+    intros n rs Hn HA r1 r2 H1 H2 Hp.
+    apply in_map_iff in H1 as [t1 [E1 I1]]. apply in_map_iff in H2 as [t2 [E2 I2]].
+    apply in_sstrip in I1. apply in_sstrip in I2.
+    apply (in_map split_path) in I1. apply (in_map split_path) in I2.
+    rewrite (split_path_dot _ _ Hn) in I1. rewrite (split_path_dot _ _ Hn) in I2. rewrite E1 in I1. rewrite E2 in I2.
+    assert (Hc : is_prefix (n :: r1) (n :: r2) = true)
+      by (cbn [is_prefix]; now rewrite String.eqb_refl).
+    specialize (HA _ _ I1 I2 Hc). now inversion HA.
+  Qed.
+
+  Lemma antichain_single : forall n rs, sep_free n = true ->
+    antichain (map split_path rs) -> existsb (String.eqb n) rs = true -> sstrip n rs = [].
+  Proof.
+    intros n rs Hn HA Hex.
+    destruct (sstrip_nil_or n rs) as [H | [s' Hs']]; [assumption | exfalso].
+    apply existsb_exists in Hex as [x [Hx Hxn]]. apply String.eqb_eq in Hxn; subst x.
+    apply (in_map split_path) in Hx. apply (in_map split_path) in Hs'.
+    rewrite (split_path_single _ Hn) in Hx. rewrite (split_path_dot _ _ Hn) in Hs'.
+    assert (Hc : is_prefix [n] (n :: split_path s') = true)
+      by (cbn [is_prefix]; now rewrite String.eqb_refl).
+    specialize (HA _ _ Hx Hs' Hc). inversion HA as [Hnil]. symmetry in Hnil.
+    now apply split_path_nonnil in Hnil.
+  Qed.
+
+  Lemma include_test_sstrip : forall n rs,
+    existsb (fun r => String.eqb r n || prefixb (n ++ ".") r) rs = true ->
+    existsb (String.eqb n) rs = false -> sstrip n rs <> [].
+  Proof.
+    intros n rs. induction rs as [|s rs IH]; cbn [existsb]; intros H1 H2; [discriminate|].
+    rewrite sstrip_cons. apply orb_false_iff in H2 as [H2 H2'].
+    rewrite String.eqb_sym in H2. rewrite H2 in H1. cbn [orb] in H1.
+    destruct (prefixb (n ++ ".") s); [discriminate|]. cbn [orb] in H1. now apply IH.
+  Qed.
+
+  (* ---------- the selection only depends on what the rules say below the current path ---------- *)
+  Lemma select_ext_aux : forall ps R1 R2 at1 at2,
+    (forall q, leaf_selected R1 (at1 ++ q)%list = leaf_selected R2 (at2 ++ q)%list) ->
+    (forall q, ns_selected R1 (at1 ++ q)%list = ns_selected R2 (at2 ++ q)%list) ->
+    select R1 at1 ps = select R2 at2 ps.
+  Proof.
+    intros ps.
+    apply (ports_mut
+      (fun p => match p with
+                | PLeaf _ => True
+                | PNs _ sub => forall R1 R2 at1 at2,
+                    (forall q, leaf_selected R1 (at1 ++ q)%list = leaf_selected R2 (at2 ++ q)%list) ->
+                    (forall q, ns_selected R1 (at1 ++ q)%list = ns_selected R2 (at2 ++ q)%list) ->
+                    select R1 at1 sub = select R2 at2 sub
+                end)
+      (fun ps => forall R1 R2 at1 at2,
+                    (forall q, leaf_selected R1 (at1 ++ q)%list = leaf_selected R2 (at2 ++ q)%list) ->
+                    (forall q, ns_selected R1 (at1 ++ q)%list = ns_selected R2 (at2 ++ q)%list) ->
+                    select R1 at1 ps = select R2 at2 ps)); clear ps.
+    - intros a. exact I.
+    - intros a ps IH. exact IH.
+    - intros R1 R2 at1 at2 HL HN. reflexivity.
+    - intros n p IHp rest IHrest R1 R2 at1 at2 HL HN.
+      cbn [select]. rewrite (IHrest R1 R2 at1 at2 HL HN).
+      destruct p as [la | na sub].
+      + now rewrite HL.
+      + rewrite HN. rewrite (IHp R1 R2 (at1 ++ [n])%list (at2 ++ [n])%list); [reflexivity| |].
+        * intros q. rewrite <- !app_assoc. apply HL.
+        * intros q. rewrite <- !app_assoc. apply HN.
+  Qed.
+
+  Lemma select_descend : forall ps R R' n,
+    (forall q, leaf_selected R (n :: q) = leaf_selected R' q) ->
+    (forall q, ns_selected R (n :: q) = ns_selected R' q) ->
+    select R [n] ps = select R' [] ps.
+  Proof. intros ps R R' n HL HN. apply select_ext_aux; intros q; cbn [app]; [apply HL | apply HN]. Qed.
+
+  (* ---------- the rule sets, read semantically ---------- *)
+  Lemma leaf_excl : forall l q,
+    leaf_selected (ruleset_of (Some l) None) q = negb (existsb (fun r => is_prefix r q) (map split_path l)).
+  Proof. intros [|x l] q; reflexivity. Qed.
+  Lemma ns_excl : forall l q,
+    ns_selected (ruleset_of (Some l) None) q = negb (existsb (fun r => is_prefix r q) (map split_path l)).
+  Proof. intros [|x l] q; reflexivity. Qed.
+
+  Definition include_test (n : string) (inc : option (list string)) : bool :=
+    match inc with
+    | Some rs => existsb (fun r => String.eqb r n || prefixb (n ++ ".") r) rs
+    | None => false
+    end.
+
+  (* the tests absorb makes on a name at the current level are the component-level ones *)
+  Lemma top_leaf : forall n ex inc, sep_free n = true -> (ex = None \/ inc = None) ->
+    leaf_selected (ruleset_of ex inc) [n]
+    = negb (rules_nonempty ex && in_rules n ex) && negb (rules_nonempty inc && negb (in_rules n inc)).
+  Proof.
+    intros n ex inc Hn Hx.
+    destruct ex as [[|e es]|]; destruct inc as [[|i is_]|]; 
+      try (destruct Hx; discriminate); try reflexivity.
+    - cbn [ruleset_of leaf_selected rules_nonempty in_rules andb negb]. rewrite andb_true_r.
+      f_equal. rewrite existsb_map. apply existsb_ext'. intros s. now apply is_prefix_single.
+    - cbn [ruleset_of leaf_selected rules_nonempty in_rules andb negb]. rewrite negb_involutive.
+      rewrite existsb_map. apply existsb_ext'. intros s. now apply is_prefix_single.
+  Qed.
+
+  Lemma top_ns : forall n ex inc, sep_free n = true -> (ex = None \/ inc = None) ->
+    ns_selected (ruleset_of ex inc) [n]
+    = negb (rules_nonempty ex && in_rules n ex) && negb (rules_nonempty inc && negb (include_test n inc)).
+  Proof.
+    intros n ex inc Hn Hx.
+    destruct ex as [[|e es]|]; destruct inc as [[|i is_]|]; 
+      try (destruct Hx; discriminate); try reflexivity.
+    - cbn [ruleset_of ns_selected rules_nonempty in_rules andb negb]. rewrite andb_true_r.
+      f_equal. rewrite existsb_map. apply existsb_ext'. intros s. now apply is_prefix_single.
+    - cbn [ruleset_of ns_selected rules_nonempty include_test andb negb]. rewrite negb_involutive.
+      rewrite existsb_map. apply existsb_ext'. intros s. now apply ns_test_single.
+  Qed.
+
+  (* descending into a selected namespace n with stripped rules = moving the path to [n] *)
+  Lemma descend : forall n ex inc, sep_free n = true -> (ex = None \/ inc = None) ->
+    antichainR (ruleset_of ex inc) ->
+    rules_nonempty ex && in_rules n ex = false ->
+    rules_nonempty inc && negb (include_test n inc) = false ->
+    (forall q, leaf_selected (ruleset_of ex inc) (n :: q)
+               = leaf_selected (ruleset_of (strip_namespace n ex) (strip_namespace n inc)) q)
+    /\ (forall q, ns_selected (ruleset_of ex inc) (n :: q)
+                  = ns_selected (ruleset_of (strip_namespace n ex) (strip_namespace n inc)) q)
+    /\ (strip_namespace n ex = None \/ strip_namespace n inc = None)
+    /\ antichainR (ruleset_of (strip_namespace n ex) (strip_namespace n inc)).
+  Proof.
+    intros n ex inc Hn Hx HA H1 H2.
+    destruct ex as [[|e es]|]; destruct inc as [[|i is_]|]; try (destruct Hx; discriminate).
+    - cbn. repeat split; auto.
+    - (* exclude *)
+      cbn [rules_nonempty in_rules andb] in H1.
+      rewrite strip_namespace_Some. cbn [strip_namespace].
+      split; [|split; [|split]].
+      + intros q. rewrite (leaf_excl (sstrip n (e :: es))). cbn [ruleset_of leaf_selected]. f_equal.
+        rewrite existsb_strip_leaf by assumption. now rewrite H1.
+      + intros q. rewrite (ns_excl (sstrip n (e :: es))). cbn [ruleset_of ns_selected]. f_equal.
+        rewrite existsb_strip_leaf by assumption. now rewrite H1.
+      + now right.
+      + destruct (sstrip n (e :: es)); exact I.
+    - cbn. repeat split; auto.
+    - (* include *)
+      cbn [rules_nonempty include_test andb] in H2. apply negb_false_iff in H2.
+      cbn [ruleset_of antichainR] in HA.
+      rewrite strip_namespace_Some. cbn [strip_namespace].
+      destruct (existsb (String.eqb n) (i :: is_)) eqn:Eb.
+      + rewrite (antichain_single _ _ Hn HA Eb). cbn [ruleset_of leaf_selected ns_selected antichainR].
+        split; [|split; [|split]]; auto.
+        * intros q. rewrite existsb_strip_leaf by assumption. now rewrite Eb.
+        * intros q. rewrite existsb_strip_ns by assumption. now rewrite Eb.
+      + pose proof (include_test_sstrip _ _ H2 Eb) as Hne.
+        pose proof (antichain_strip n _ Hn HA) as HA'.
+        destruct (sstrip n (i :: is_)) as [|t ts] eqn:Es; [now elim Hne|].
+        cbn [ruleset_of leaf_selected ns_selected antichainR].
+        split; [|split; [|split]]; auto.
+        * intros q. rewrite existsb_strip_leaf by assumption. now rewrite Eb, Es.
+        * intros q. rewrite existsb_strip_ns by assumption. now rewrite Eb, Es.
+    - cbn. repeat split; auto.
+  Qed.
+
+  (* ---------- unfolding absorb_ports ---------- *)
+  Lemma absorb_ports_leaf : forall n la rest dps ex inc,
+    absorb_ports (PCons n (PLeaf la) rest) dps ex inc =
+    if rules_nonempty ex && in_rules n ex then absorb_ports rest dps ex inc
+    else if rules_nonempty inc && negb (in_rules n inc) then absorb_ports rest dps ex inc
+    else let '(dps', names) := absorb_ports rest (ports_set n (PLeaf la) dps) ex inc in (dps', n :: names).
+  Proof. reflexivity. Qed.
+
+  Lemma absorb_ports_ns : forall n a sub rest dps ex inc,
+    absorb_ports (PCons n (PNs a sub) rest) dps ex inc =
+    if rules_nonempty ex && in_rules n ex then absorb_ports rest dps ex inc
+    else if rules_nonempty inc && negb (include_test n inc) then absorb_ports rest dps ex inc
+    else let '(sub', _) := absorb_ports sub PNil (strip_namespace n ex) (strip_namespace n inc) in
+         let '(dps', names) := absorb_ports rest (ports_set n (PNs (set_valid_type a (n_vt a)) sub') dps) ex inc in
+         (dps', n :: names).
+  Proof. intros. destruct a; reflexivity. Qed.
+
+  (* ---------- ports as dictionaries ---------- *)
+  Lemma existsb_eqb_In : forall n l, existsb (String.eqb n) l = true <-> In n l.
+  Proof.
+    intros n l. rewrite existsb_exists. split.
+    - intros [x [Hx He]]. apply String.eqb_eq in He. now subst.
+    - intros H. exists n. split; [assumption | apply String.eqb_refl].
+  Qed.
+
+  Lemma existsb_eqb_notIn : forall n l, existsb (String.eqb n) l = false <-> ~ In n l.
+  Proof.
+    intros n l. rewrite <- existsb_eqb_In. destruct (existsb (String.eqb n) l); split; intros H;
+      try reflexivity; try discriminate; try (intros H'; discriminate). now elim H.
+  Qed.
+
+  Fixpoint ports_app (a b : ports) : ports :=
+    match a with PNil => b | PCons n p r => PCons n p (ports_app r b) end.
+
+  Lemma ports_app_assoc : forall a b c, ports_app (ports_app a b) c = ports_app a (ports_app b c).
+  Proof. induction a as [|n p a IH]; intros b c; cbn; [reflexivity | now rewrite IH]. Qed.
+
+  Lemma ports_names_app : forall a b, ports_names (ports_app a b) = (ports_names a ++ ports_names b)%list.
+  Proof. induction a as [|n p a IH]; intros b; cbn; [reflexivity | now rewrite IH]. Qed.
+
+  Lemma ports_set_fresh : forall n p D, ~ In n (ports_names D) ->
+    ports_set n p D = ports_app D (PCons n p PNil).
+  Proof.
+    intros n p D. induction D as [|m q D IH]; cbn; intros H; [reflexivity|].
+    destruct (String.eqb n m) eqn:E.
+    - apply String.eqb_eq in E. subst. elim H. now left.
+    - rewrite IH; [reflexivity|]. intros H'. apply H. now right.
+  Qed.
+
+  Lemma names_unique_cons : forall n p rest,
+    names_unique (PCons n p rest) = true <-> ~ In n (ports_names rest) /\ names_unique rest = true.
+  Proof.
+    intros n p rest. cbn [names_unique]. rewrite andb_true_iff, negb_true_iff, existsb_eqb_notIn.
+    reflexivity.
+  Qed.
+
+  Lemma assign_all_app : forall X D, names_unique X = true ->
+    (forall k, In k (ports_names X) -> ~ In k (ports_names D)) ->
+    assign_all X D = ports_app D X.
+  Proof.
+    induction X as [|n p X IH]; intros D HU HD; cbn [assign_all].
+    - induction D as [|m q D IHD]; cbn; [reflexivity | now rewrite <- IHD at 1].
+    - apply names_unique_cons in HU as [Hn HU].
+      rewrite ports_set_fresh by (apply HD; now left).
+      rewrite IH; [now rewrite ports_app_assoc | assumption |].
+      intros k Hk. rewrite ports_names_app. cbn. intros Hin. apply in_app_or in Hin as [Hin | [Hin | []]].
+      + apply (HD k); [now right | assumption].
+      + subst k. now apply Hn.
+  Qed.
+
+  Lemma assign_all_nil : forall X, names_unique X = true -> assign_all X PNil = X.
+  Proof. intros X HU. rewrite assign_all_app; [reflexivity | assumption | intros k _ []]. Qed.
+
+  Lemma select_names_incl : forall R at_ ps k,
+    In k (ports_names (select R at_ ps)) -> In k (ports_names ps).
+  Proof.
+    intros R at_ ps k. induction ps as [|n p ps IH]; cbn [select ports_names]; [auto|].
+    destruct p as [la | a sub].
+    - destruct (leaf_selected R (at_ ++ [n])%list); cbn [ports_names In]; intuition.
+    - destruct (ns_selected R (at_ ++ [n])%list); cbn [ports_names In]; intuition.
+  Qed.
+
+  Lemma select_names_unique : forall R at_ ps,
+    names_unique ps = true -> names_unique (select R at_ ps) = true.
+  Proof.
+    intros R at_ ps. induction ps as [|n p ps IH]; intros HU; [reflexivity|].
+    apply names_unique_cons in HU as [Hn HU]. cbn [select].
+    assert (Hn' : ~ In n (ports_names (select R at_ ps)))
+      by (intros H; apply Hn; eapply select_names_incl; eassumption).
+    destruct p as [la | a sub].
+    - destruct (leaf_selected R (at_ ++ [n])%list); [|now apply IH].
+      apply names_unique_cons. split; [assumption | now apply IH].
+    - destruct (ns_selected R (at_ ++ [n])%list); [|now apply IH].
+      apply names_unique_cons. split; [assumption | now apply IH].
+  Qed.
+
+  Definition absorb_ports_correct (sps : ports) : Prop :=
+    forall dps ex inc,
+      good_names_ports sps = true -> wf_ports sps = true ->
+      (ex = None \/ inc = None) -> antichainR (ruleset_of ex inc) ->
+      absorb_ports sps dps ex inc
+      = (assign_all (select (ruleset_of ex inc) [] sps) dps, ports_names (select (ruleset_of ex inc) [] sps)).
+
+  Lemma absorb_ports_select_gen : forall sps, absorb_ports_correct sps.
+  Proof.
+    intros sps.
+    apply (ports_mut
+      (fun p => match p with PLeaf _ => True | PNs _ sub => absorb_ports_correct sub end)
+      absorb_ports_correct); clear sps.
+    - intros a; exact I.
+    - intros a ps IH; exact IH.
+    - intros dps ex inc _ _ _ _. reflexivity.
+    - intros n p IHp rest IHrest dps ex inc Hg Hw Hx HA.
+      cbn [good_names_ports] in Hg.
+      apply andb_true_iff in Hg as [Hg Hgrest]. apply andb_true_iff in Hg as [Hgn Hgp].
+      unfold good_name in Hgn. apply andb_true_iff in Hgn as [Hn _].
+      cbn [wf_ports] in Hw. apply andb_true_iff in Hw as [Hwp Hwrest].
+      cbn [select app].
+      destruct p as [la | a sub].
+      + rewrite absorb_ports_leaf. rewrite (top_leaf _ _ _ Hn Hx).
+        destruct (rules_nonempty ex && in_rules n ex); cbn [negb andb].
+        * now apply IHrest.
+        * destruct (rules_nonempty inc && negb (in_rules n inc)); cbn [negb].
+          -- now apply IHrest.
+          -- rewrite (IHrest _ ex inc Hgrest Hwrest Hx HA). reflexivity.
+      + rewrite absorb_ports_ns. rewrite (top_ns _ _ _ Hn Hx).
+        destruct (rules_nonempty ex && in_rules n ex) eqn:E1; cbn [negb andb].
+        * now apply IHrest.
+        * destruct (rules_nonempty inc && negb (include_test n inc)) eqn:E2; cbn [negb].
+          -- now apply IHrest.
+          -- destruct (descend n ex inc Hn Hx HA E1 E2) as [HL [HN [Hx' HA']]].
+             cbn [good_names] in Hgp. cbn [wf_port] in Hwp.
+             apply andb_true_iff in Hwp as [Hus Hws].
+             rewrite (IHp PNil _ _ Hgp Hws Hx' HA').
+             rewrite (IHrest _ ex inc Hgrest Hwrest Hx HA).
+             rewrite (select_descend sub _ _ n HL HN).
+             rewrite assign_all_nil by (now apply select_names_unique).
+             reflexivity.
+  Qed.
+
+  (* (1) *)
   Theorem absorb_ports_select : forall sps dps ex inc,
     good_names_ports sps = true -> wf_ports sps = true -> names_unique sps = true ->
     (ex = None \/ inc = None) ->
+    include_antichain (ruleset_of ex inc) = true ->
     fst (absorb_ports sps dps ex inc) = assign_all (select (ruleset_of ex inc) [] sps) dps
     /\ snd (absorb_ports sps dps ex inc) = ports_names (select (ruleset_of ex inc) [] sps).
+  Proof.
+    intros sps dps ex inc Hg Hw _ Hx HA.
+    rewrite (absorb_ports_select_gen sps dps ex inc Hg Hw Hx (include_antichain_spec _ HA)).
+    split; reflexivity.
+  Qed.
 
-  (2) pointwise meaning of the selection: a leaf of the source is in the selection iff a rule selects its path
-      (include: some rule is a component-prefix of it; exclude: none is), with its attributes; nothing else is.
-  Theorem select_leaf : forall R a sps q la,
-    wf_ports sps = true -> names_unique sps = true ->
-    (lookup_port q (PNs a (select R [] sps)) = Some (PLeaf la) <->
-     lookup_port q (PNs a sps) = Some (PLeaf la) /\ q <> [] /\ leaf_selected R q = true).
-  Theorem select_ns : forall R a sps q na sub,
-    wf_ports sps = true -> names_unique sps = true -> q <> [] ->
-    lookup_port q (PNs a (select R [] sps)) = Some (PNs na sub) ->
-    exists na' sub', lookup_port q (PNs a sps) = Some (PNs na' sub') /\ na = set_valid_type na' (n_vt na')
-                     /\ ns_selected R q = true.
-  (for exclude rules and RAll also the converse of select_ns holds; for include rules a namespace appears iff
-   ns_selected and all its ancestors are ns_selected — state and prove the strongest version you can.)
+  (* ---------- (3) the destination ---------- *)
+  Lemma ports_get_set : forall k n p D,
+    ports_get k (ports_set n p D) = if String.eqb k n then Some p else ports_get k D.
+  Proof.
+    intros k n p D. induction D as [|m q D IH]; cbn [ports_set ports_get].
+    - reflexivity.
+    - destruct (String.eqb n m) eqn:E; cbn [ports_get].
+      + apply String.eqb_eq in E. subst m. now destruct (String.eqb k n).
+      + rewrite IH. destruct (String.eqb k m) eqn:E2; [|reflexivity].
+        apply String.eqb_eq in E2. subst m. rewrite String.eqb_sym. now rewrite E.
+  Qed.
 
-  (3) the destination: other ports stay, selected ones are assigned by name.
   Theorem assign_all_other : forall X dps k,
     existsb (String.eqb k) (ports_names X) = false -> ports_get k (assign_all X dps) = ports_get k dps.
+  Proof.
+    induction X as [|n p X IH]; intros dps k H; cbn [assign_all]; [reflexivity|].
+    cbn [ports_names existsb] in H. apply orb_false_iff in H as [H1 H2].
+    rewrite (IH _ _ H2). rewrite ports_get_set. now rewrite H1.
+  Qed.
+
   Theorem assign_all_selected : forall X dps k p,
     names_unique X = true -> ports_get k X = Some p -> ports_get k (assign_all X dps) = Some p.
+  Proof.
+    induction X as [|n p0 X IH]; intros dps k p HU HG; cbn [assign_all]; [discriminate|].
+    cbn [names_unique] in HU. apply andb_true_iff in HU as [Hn HU]. apply negb_true_iff in Hn.
+    cbn [ports_get] in HG. destruct (String.eqb k n) eqn:E.
+    - apply String.eqb_eq in E. subst k. inversion HG; subst p0.
+      rewrite (assign_all_other _ _ _ Hn). rewrite ports_get_set. now rewrite String.eqb_refl.
+    - now apply IH.
+  Qed.
 
-  (4) absorb as a whole, and the mutual exclusion:
+  (* ---------- (4) absorb as a whole ---------- *)
   Theorem absorb_spec : forall dst src ex inc opts d names,
     good_names src = true -> wf_port src = true ->
+    include_antichain (ruleset_of ex inc) = true ->
     absorb dst src ex inc opts = inr (d, names) ->
     exists da dps sa sps a',
       dst = PNs da dps /\ src = PNs sa sps /\ (ex = None \/ inc = None) /\ absorb_attrs sa opts = inr a'
       /\ d = PNs a' (assign_all (select (ruleset_of ex inc) [] sps) dps)
       /\ names = ports_names (select (ruleset_of ex inc) [] sps).
+  Proof.
+    intros dst src ex inc opts d names Hg Hw HA H.
+    destruct dst as [dl | da dps]; [discriminate|].
+    destruct src as [sl | sa sps]; [discriminate|].
+    cbn [good_names] in Hg. cbn [wf_port] in Hw. apply andb_true_iff in Hw as [Hu Hw].
+    assert (Hx : ex = None \/ inc = None).
+    { destruct ex; [|now left]. destruct inc; [|now right]. cbn in H. discriminate. }
+    assert (H' : match absorb_attrs sa opts with
+                 | inl e => inl e
+                 | inr a' => let '(dps', names) := absorb_ports sps dps ex inc in inr (PNs a' dps', names)
+                 end = @inr exn _ (d, names)).
+    { destruct Hx; subst; [destruct inc | destruct ex]; exact H. }
+    clear H. destruct (absorb_attrs sa opts) as [e | a'] eqn:Ea; [discriminate|].
+    rewrite (absorb_ports_select_gen sps dps ex inc Hg Hw Hx (include_antichain_spec _ HA)) in H'.
+    inversion H'; subst.
+    exists da, dps, sa, sps, a'. repeat split; auto.
+  Qed.
+
   Theorem absorb_exclusive : forall dst src ex inc opts,
     absorb dst src (Some ex) (Some inc) opts = inl EValue
     \/ (exists la, dst = PLeaf la) \/ (exists la, src = PLeaf la).
-  (5) the namespace properties: source's unless overridden; an unknown option is an error; valid_type <> None forces dynamic.
+  Proof.
+    intros [dl | da dps] [sl | sa sps] ex inc opts.
+    - right; left; now exists dl.
+    - right; left; now exists dl.
+    - right; right; now exists sl.
+    - left. reflexivity.
+  Qed.
+
+  (* ---------- (5) the namespace properties ---------- *)
+  Lemma alist_get_In : forall {A} k (l : list (string * A)) v, alist_get k l = Some v -> In (k, v) l.
+  Proof.
+    intros A k l v. induction l as [|[k' v'] l IH]; cbn [alist_get]; [discriminate|].
+    destruct (String.eqb k k') eqn:E; intros H.
+    - apply String.eqb_eq in E. inversion H; subst. now left.
+    - right. now apply IH.
+  Qed.
+
   Theorem absorb_attrs_spec : forall sa opts a',
     absorb_attrs sa opts = inr a' ->
     (forall k, alist_mem k opts = true -> existsb (String.eqb k) known_props = true)
@@ -58,7 +723,300 @@ Section C15.
     /\ n_help a' = match alist_get "help" opts with Some (OHelp h) => h | _ => n_help sa end
     /\ n_validator a' = match alist_get "validator" opts with Some (OVid v) => v | _ => n_validator sa end
     /\ n_default a' = match alist_get "default" opts with Some (ODflt d) => d | _ => n_default sa end.
+  Proof.
+    intros sa opts a' H. unfold absorb_attrs in H.
+    destruct (forallb (fun kv => existsb (String.eqb (fst kv)) known_props) opts) eqn:Ef; [|discriminate].
+    inversion H as [Ha]. clear H.
+    split.
+    { intros k Hk. unfold alist_mem in Hk. destruct (alist_get k opts) as [v|] eqn:Eg; [|discriminate].
+      apply alist_get_In in Eg. rewrite forallb_forall in Ef. exact (Ef _ Eg). }
+    unfold set_valid_type. cbn [n_vt n_dynamic n_required n_populate n_help n_validator n_default].
+    repeat split.
+    - intros Hvt. destruct (match alist_get "valid_type" opts with Some (OVt t) => t | _ => n_vt sa end);
+        [reflexivity | now elim Hvt].
+    - intros Hvt. now rewrite Hvt.
+  Qed.
+
   Theorem absorb_attrs_unknown : forall sa opts k v,
     alist_get k opts = Some v -> existsb (String.eqb k) known_props = false -> absorb_attrs sa opts = inl EValue.
-  *)
+  Proof.
+    intros sa opts k v Hg Hk. unfold absorb_attrs.
+    destruct (forallb (fun kv => existsb (String.eqb (fst kv)) known_props) opts) eqn:Ef; [|reflexivity].
+    apply alist_get_In in Hg. rewrite forallb_forall in Ef. specialize (Ef _ Hg). cbn [fst] in Ef.
+    rewrite Ef in Hk. discriminate.
+  Qed.
+
+  (* ---------- (2) pointwise meaning of the selection ---------- *)
+  Definition port_selected (R : ruleset) (q : path) (p : port) : bool :=
+    match p with PLeaf _ => leaf_selected R q | PNs _ _ => ns_selected R q end.
+
+  (* what a selected source port becomes *)
+  Definition sel_port (R : ruleset) (q : path) (p : port) : port :=
+    match p with
+    | PLeaf la => PLeaf la
+    | PNs na sub => PNs (set_valid_type na (n_vt na)) (select R q sub)
+    end.
+
+  Lemma ports_get_None : forall c ps, ~ In c (ports_names ps) -> ports_get c ps = None.
+  Proof.
+    intros c ps. induction ps as [|n p ps IH]; cbn [ports_names ports_get]; intros H; [reflexivity|].
+    destruct (String.eqb c n) eqn:E.
+    - apply String.eqb_eq in E. subst. elim H. now left.
+    - apply IH. intros H'. apply H. now right.
+  Qed.
+
+  Lemma ports_get_select : forall R at_ ps c, names_unique ps = true ->
+    ports_get c (select R at_ ps) =
+    match ports_get c ps with
+    | Some p => if port_selected R (at_ ++ [c])%list p then Some (sel_port R (at_ ++ [c])%list p) else None
+    | None => None
+    end.
+  Proof.
+    intros R at_ ps c. induction ps as [|n p ps IH]; intros HU; [reflexivity|].
+    apply names_unique_cons in HU as [Hn HU].
+    cbn [select ports_get]. destruct (String.eqb c n) eqn:E.
+    - apply String.eqb_eq in E. subst c.
+      assert (Hnone : ports_get n (select R at_ ps) = None).
+      { apply ports_get_None. intros H. apply Hn. eapply select_names_incl; eassumption. }
+      destruct p as [la | na sub]; cbn [port_selected sel_port].
+      + destruct (leaf_selected R (at_ ++ [n])%list); [|assumption].
+        cbn [ports_get]. now rewrite String.eqb_refl.
+      + destruct (ns_selected R (at_ ++ [n])%list); [|assumption].
+        cbn [ports_get]. now rewrite String.eqb_refl.
+    - destruct p as [la | na sub].
+      + destruct (leaf_selected R (at_ ++ [n])%list); [|now apply IH].
+        cbn [ports_get]. rewrite E. now apply IH.
+      + destruct (ns_selected R (at_ ++ [n])%list); [|now apply IH].
+        cbn [ports_get]. rewrite E. now apply IH.
+  Qed.
+
+  Lemma wf_ports_get : forall ps c p, wf_ports ps = true -> ports_get c ps = Some p -> wf_port p = true.
+  Proof.
+    induction ps as [|n p0 ps IH]; intros c p Hw Hg; cbn [ports_get] in Hg; [discriminate|].
+    cbn [wf_ports] in Hw. apply andb_true_iff in Hw as [Hw0 Hw].
+    destruct (String.eqb c n); [inversion Hg; now subst | now apply IH with c].
+  Qed.
+
+  (* every namespace on the way is selected, and so is the port reached *)
+  Fixpoint path_ok (R : ruleset) (at_ : path) (q : path) (r0 : port) {struct q} : bool :=
+    match q with
+    | [] => true
+    | c :: q' =>
+        match q' with
+        | [] => port_selected R (at_ ++ [c])%list r0
+        | _ :: _ => ns_selected R (at_ ++ [c])%list && path_ok R (at_ ++ [c])%list q' r0
+        end
+    end.
+
+  Lemma path_ok_cons : forall R at_ c q' p1 r0, lookup_port q' p1 = Some r0 ->
+    path_ok R at_ (c :: q') r0 = port_selected R (at_ ++ [c])%list p1 && path_ok R (at_ ++ [c])%list q' r0.
+  Proof.
+    intros R at_ c q' p1 r0 H. destruct q' as [|c2 q''].
+    - cbn in H. inversion H; subst. cbn [path_ok]. now rewrite andb_true_r.
+    - destruct p1 as [la | na sub]; [discriminate|]. reflexivity.
+  Qed.
+
+  Lemma lookup_select : forall R q p at_ r, wf_port p = true ->
+    (lookup_port q (sel_port R at_ p) = Some r <->
+     exists r0, lookup_port q p = Some r0 /\ r = sel_port R (at_ ++ q)%list r0 /\ path_ok R at_ q r0 = true).
+  Proof.
+    intros R. induction q as [|c q' IH]; intros p at_ r Hw.
+    - cbn [lookup_port path_ok]. rewrite app_nil_r. split.
+      + intros H. inversion H; subst. exists p. auto.
+      + intros [r0 [H0 [Hr _]]]. inversion H0; subst. reflexivity.
+    - destruct p as [la | na sub].
+      + cbn [sel_port lookup_port]. split; [discriminate | intros [r0 [H0 _]]; discriminate].
+      + cbn [wf_port] in Hw. apply andb_true_iff in Hw as [Hu Hws].
+        cbn [sel_port lookup_port]. rewrite (ports_get_select _ _ _ _ Hu).
+        destruct (ports_get c sub) as [p1|] eqn:Eg;
+          [|split; [discriminate | intros [r0 [H0 _]]; discriminate]].
+        pose proof (wf_ports_get _ _ _ Hws Eg) as Hw1.
+        destruct (port_selected R (at_ ++ [c])%list p1) eqn:Es.
+        * rewrite (IH p1 (at_ ++ [c])%list r Hw1). rewrite <- app_assoc. cbn [app].
+          split; intros [r0 [H0 [Hr Hp]]]; exists r0; (split; [assumption | split; [assumption|]]).
+          -- rewrite (path_ok_cons _ _ _ _ _ _ H0). now rewrite Es.
+          -- rewrite (path_ok_cons _ _ _ _ _ _ H0) in Hp. now rewrite Es in Hp.
+        * split; [discriminate|]. intros [r0 [H0 [Hr Hp]]].
+          rewrite (path_ok_cons _ _ _ _ _ _ H0) in Hp. rewrite Es in Hp. discriminate.
+  Qed.
+
+  Lemma leaf_sel_ns_sel : forall R p q, leaf_selected R (p ++ q)%list = true -> ns_selected R p = true.
+  Proof.
+    intros [|rs|rs] p q H; cbn [leaf_selected ns_selected] in *.
+    - reflexivity.
+    - apply existsb_exists in H as [r [Hr Hp]]. apply existsb_exists. exists r. split; [assumption|].
+      apply orb_true_iff. now apply is_prefix_app_cases with q.
+    - apply negb_true_iff in H. apply negb_true_iff.
+      destruct (existsb (fun r => is_prefix r p) rs) eqn:E; [|reflexivity].
+      apply existsb_exists in E as [r [Hr Hp]].
+      rewrite <- H. symmetry. apply existsb_exists. exists r. split; [assumption|].
+      now apply is_prefix_app_l.
+  Qed.
+
+  Lemma path_ok_final : forall R q at_ r0, q <> [] -> path_ok R at_ q r0 = true ->
+    port_selected R (at_ ++ q)%list r0 = true.
+  Proof.
+    intros R. induction q as [|c q' IH]; intros at_ r0 Hne H; [now elim Hne|].
+    destruct q' as [|c2 q''].
+    - exact H.
+    - cbn [path_ok] in H. apply andb_true_iff in H as [_ H].
+      change (at_ ++ c :: c2 :: q'')%list with (at_ ++ [c] ++ c2 :: q'')%list. rewrite app_assoc.
+      apply IH; [discriminate | exact H].
+  Qed.
+
+  Lemma path_ok_leaf : forall R q at_ la, leaf_selected R (at_ ++ q)%list = true ->
+    path_ok R at_ q (PLeaf la) = true.
+  Proof.
+    intros R. induction q as [|c q' IH]; intros at_ la H; [reflexivity|].
+    destruct q' as [|c2 q''].
+    - exact H.
+    - change (at_ ++ c :: c2 :: q'')%list with (at_ ++ [c] ++ c2 :: q'')%list in H. rewrite app_assoc in H.
+      cbn [path_ok]. rewrite (leaf_sel_ns_sel _ _ _ H). cbn [andb]. now apply IH.
+  Qed.
+
+  Theorem select_leaf : forall R a sps q la,
+    wf_ports sps = true -> names_unique sps = true ->
+    (lookup_port q (PNs a (select R [] sps)) = Some (PLeaf la) <->
+     lookup_port q (PNs a sps) = Some (PLeaf la) /\ q <> [] /\ leaf_selected R q = true).
+  Proof.
+    intros R a sps q la Hw Hu.
+    destruct q as [|c q'].
+    - cbn [lookup_port]. split; [discriminate | intros [_ [H _]]; now elim H].
+    - change (lookup_port (c :: q') (PNs a (select R [] sps)))
+        with (lookup_port (c :: q') (sel_port R [] (PNs a sps))).
+      rewrite lookup_select by (cbn [wf_port]; now rewrite Hu, Hw).
+      cbn [app]. split.
+      + intros [r0 [H0 [Hr Hp]]]. destruct r0 as [la0 | na0 sub0]; [|discriminate].
+        cbn [sel_port] in Hr. inversion Hr; subst la0.
+        split; [assumption | split; [discriminate|]].
+        apply (path_ok_final R (c :: q') [] (PLeaf la)); [discriminate | assumption].
+      + intros [H0 [_ Hs]]. exists (PLeaf la). split; [assumption | split; [reflexivity|]].
+        now apply path_ok_leaf.
+  Qed.
+
+  (* all non-empty prefixes of q (taken below at_) are selected as namespaces *)
+  Fixpoint ns_chain (R : ruleset) (at_ : path) (q : path) {struct q} : bool :=
+    match q with
+    | [] => true
+    | c :: q' => ns_selected R (at_ ++ [c])%list && ns_chain R (at_ ++ [c])%list q'
+    end.
+
+  Lemma path_ok_ns : forall R q at_ na sub, path_ok R at_ q (PNs na sub) = ns_chain R at_ q.
+  Proof.
+    intros R. induction q as [|c q' IH]; intros at_ na sub; [reflexivity|].
+    destruct q' as [|c2 q''].
+    - cbn. now rewrite andb_true_r.
+    - cbn [path_ok ns_chain]. f_equal. apply IH.
+  Qed.
+
+  Lemma ns_chain_spec : forall R q at_,
+    ns_chain R at_ q = true <->
+    (forall q1 q2, q = (q1 ++ q2)%list -> q1 <> [] -> ns_selected R (at_ ++ q1)%list = true).
+  Proof.
+    intros R. induction q as [|c q' IH]; intros at_.
+    - split; [|reflexivity]. intros _ q1 q2 H Hne. destruct q1; [now elim Hne | discriminate].
+    - cbn [ns_chain]. rewrite andb_true_iff. rewrite IH. split.
+      + intros [H1 H2] q1 q2 Hq Hne. destruct q1 as [|c1 q1']; [now elim Hne|].
+        cbn [app] in Hq. inversion Hq; subst c1.
+        destruct q1' as [|c2 q1''].
+        * exact H1.
+        * change (at_ ++ c :: c2 :: q1'')%list with (at_ ++ [c] ++ c2 :: q1'')%list. rewrite app_assoc.
+          apply (H2 _ q2); [assumption | discriminate].
+      + intros H. split.
+        * apply (H [c] q'); [reflexivity | discriminate].
+        * intros q1 q2 Hq Hne. rewrite <- app_assoc. cbn [app].
+          apply (H (c :: q1) q2); [cbn [app]; now rewrite Hq | discriminate].
+  Qed.
+
+  (* the strongest version for namespaces: a namespace appears iff it and all its ancestors are
+     ns_selected; it carries the source's attributes (valid_type setter applied) and the selection
+     of the source's sub-ports *)
+  Theorem select_ns_iff : forall R a sps q na sub,
+    wf_ports sps = true -> names_unique sps = true -> q <> [] ->
+    (lookup_port q (PNs a (select R [] sps)) = Some (PNs na sub) <->
+     exists na' sub', lookup_port q (PNs a sps) = Some (PNs na' sub')
+                      /\ na = set_valid_type na' (n_vt na') /\ sub = select R q sub'
+                      /\ ns_chain R [] q = true).
+  Proof.
+    intros R a sps q na sub Hw Hu Hne.
+    destruct q as [|c q']; [now elim Hne|].
+    change (lookup_port (c :: q') (PNs a (select R [] sps)))
+      with (lookup_port (c :: q') (sel_port R [] (PNs a sps))).
+    rewrite lookup_select by (cbn [wf_port]; now rewrite Hu, Hw).
+    cbn [app]. split.
+    - intros [r0 [H0 [Hr Hp]]]. destruct r0 as [la0 | na0 sub0]; [discriminate|].
+      cbn [sel_port] in Hr. inversion Hr; subst na sub.
+      exists na0, sub0. rewrite path_ok_ns in Hp. auto.
+    - intros [na' [sub' [H0 [Hna [Hsub Hc]]]]]. exists (PNs na' sub').
+      split; [assumption | split; [cbn [sel_port]; now subst|]].
+      now rewrite path_ok_ns.
+  Qed.
+
+  Theorem select_ns : forall R a sps q na sub,
+    wf_ports sps = true -> names_unique sps = true -> q <> [] ->
+    lookup_port q (PNs a (select R [] sps)) = Some (PNs na sub) ->
+    exists na' sub', lookup_port q (PNs a sps) = Some (PNs na' sub') /\ na = set_valid_type na' (n_vt na')
+                     /\ ns_selected R q = true.
+  Proof.
+    intros R a sps q na sub Hw Hu Hne H.
+    apply (select_ns_iff R a sps q na sub Hw Hu Hne) in H as [na' [sub' [H0 [Hna [_ Hc]]]]].
+    exists na', sub'. split; [assumption | split; [assumption|]].
+    rewrite ns_chain_spec in Hc. apply (Hc q []); [now rewrite app_nil_r | assumption].
+  Qed.
+
+  (* for exclude rules and RAll the ancestors come for free: the converse of select_ns *)
+  Lemma ns_sel_prefix_noninclude : forall R p q, (forall rs, R <> RInclude rs) ->
+    ns_selected R (p ++ q)%list = true -> ns_selected R p = true.
+  Proof.
+    intros [|rs|rs] p q HR H.
+    - reflexivity.
+    - now elim (HR rs).
+    - exact (leaf_sel_ns_sel (RExclude rs) p q H).
+  Qed.
+
+  Lemma ns_chain_noninclude : forall R q at_, (forall rs, R <> RInclude rs) -> q <> [] ->
+    ns_selected R (at_ ++ q)%list = true -> ns_chain R at_ q = true.
+  Proof.
+    intros R q at_ HR Hne H. apply ns_chain_spec. intros q1 q2 Hq _. subst q.
+    rewrite app_assoc in H. now apply ns_sel_prefix_noninclude with q2.
+  Qed.
+
+  Theorem select_ns_converse : forall R a sps q na' sub',
+    (forall rs, R <> RInclude rs) ->
+    wf_ports sps = true -> names_unique sps = true -> q <> [] ->
+    lookup_port q (PNs a sps) = Some (PNs na' sub') -> ns_selected R q = true ->
+    lookup_port q (PNs a (select R [] sps)) = Some (PNs (set_valid_type na' (n_vt na')) (select R q sub')).
+  Proof.
+    intros R a sps q na' sub' HR Hw Hu Hne H0 Hs.
+    apply (select_ns_iff R a sps q _ _ Hw Hu Hne). exists na', sub'.
+    repeat split; try assumption; try reflexivity.
+    apply ns_chain_noninclude; assumption.
+  Qed.
+
+  (* the extra hypothesis of (1) cannot be dropped *)
+  Example antichain_needed :
+    let lf := PLeaf (mk_lattrs false None DNone None None) in
+    let src := PCons "n" (PNs default_nattrs (PCons "x" lf (PCons "y" lf PNil))) PNil in
+    let inc := Some ["n"; "n.x"] in
+    good_names_ports src = true /\ wf_ports src = true /\ names_unique src = true
+    /\ include_antichain (ruleset_of None inc) = false
+    /\ snd (absorb_ports src PNil None inc) = ports_names (select (ruleset_of None inc) [] src)
+    /\ fst (absorb_ports src PNil None inc) <> assign_all (select (ruleset_of None inc) [] src) PNil
+    /\ lookup_port ["n"; "y"] (PNs default_nattrs (fst (absorb_ports src PNil None inc))) = None
+    /\ lookup_port ["n"; "y"] (PNs default_nattrs (select (ruleset_of None inc) [] src)) = Some lf.
+  Proof. vm_compute. repeat split; try reflexivity. discriminate. Qed.
+
 End C15.
+
+Print Assumptions absorb_ports_select.
+Print Assumptions select_leaf.
+Print Assumptions select_ns.
+Print Assumptions select_ns_iff.
+Print Assumptions select_ns_converse.
+Print Assumptions assign_all_other.
+Print Assumptions assign_all_selected.
+Print Assumptions absorb_spec.
+Print Assumptions absorb_exclusive.
+Print Assumptions absorb_attrs_spec.
+Print Assumptions absorb_attrs_unknown.
+Print Assumptions antichain_needed.
